@@ -439,6 +439,47 @@ pub fn sanitizer_workload(seed: u64, cases: u64, nmax: usize, len: usize) -> (u6
     (obs, sum)
 }
 
+/// hash of every output bit of a dozen f64 histories run in THIS process, optionally after an f32
+/// history has been run in it first (the state of a problem must not depend on what the process did before)
+pub fn order_probe(seed: u64, f32_first: bool) -> u64 {
+    if f32_first {
+        let mut rng = Rng::keyed(seed, "C10/order-f32", 0);
+        let seq = gen_sequence(&mut rng, 24, 6, false, true);
+        let _ = run_sequence::<f32>(&seq, false);
+    }
+    let mut hs = Vec::new();
+    for c in 0..12 {
+        let mut rng = Rng::keyed(seed, "C10/order", c);
+        let seq = gen_sequence(&mut rng, 32, 8, false, false);
+        let r = run_sequence::<f64>(&seq, false);
+        hs.push(crate::rng::hash_u64s(r.bits.iter().cloned()));
+    }
+    crate::rng::hash_u64s(hs)
+}
+
+fn order_probes(ctx: &Ctx, n: u64) {
+    let exe = exe_for_profile("checked");
+    let mut out = CaseOut::default();
+    for k in 0..n {
+        let seed = (ctx.seed * 1000 + k).to_string();
+        let run = |flag: &str| -> Option<String> {
+            let o = std::process::Command::new(&exe).args(["c10-order", &seed, flag]).output().ok()?;
+            String::from_utf8_lossy(&o.stdout).lines().find(|l| l.starts_with("c10-order ")).map(|l| l.to_string())
+        };
+        match (run("0"), run("1")) {
+            (Some(a), Some(b)) => {
+                out.evals += 2;
+                out.count("process_history_probes");
+                if a != b {
+                    violation(&mut out, "process-history", k, format!("the outputs of twelve f64 histories differ between a fresh process and a process that handled an f32 problem first ({a} vs {b})"), json!({"seed": seed}));
+                }
+            }
+            _ => ctx.harness_error("c10-order probe produced no output".to_string()),
+        }
+    }
+    ctx.merge_public(out);
+}
+
 fn run_tool(ctx: &Ctx, name: &str, cmd: &mut std::process::Command, timeout_s: u64) -> Option<(bool, String)> {
     use std::process::Stdio;
     let t0 = std::time::Instant::now();
@@ -469,12 +510,15 @@ fn run_tool(ctx: &Ctx, name: &str, cmd: &mut std::process::Command, timeout_s: u
 }
 
 pub fn run(ctx: &Ctx) {
-    ctx.rule("history-twin: one long-lived problem driven through 12 (quick) / 40 (thorough) random operations (wide updates, repeated alpha, non-finite/extreme alpha that empty the cache, injected model failures, repeated queries, failed derivative calls, heap churn, complete short fits after which the problem inside the fit result carries on; histories of parallel problems run inside explicit pools of 1/2/3/5/16 threads and are repeated in a pool of another size with bit-identical outputs) and compared bitwise after every update with a freshly built problem at the reported parameters; repeated queries identical. Shapes: zoo models and table models with M<=8, P<=10, N<=64, S<=4 including dead parameters (identically zero derivative matrices) and zero derivative columns. clones: a problem over a Clone-able hand-written model and its clone are moved to different parameters and queried in interleaved order, each compared bitwise with a fresh problem. poison: the same sequences in child processes under allocator poison modes 0xAA / 0x55 / random, outputs bit-identical across modes and free of poison patterns. thorough adds valgrind memcheck over the release build and Miri over small shapes, with a data-dependent branch on every output element. non-trivial = the sequence produced at least one state with values; distinct = hash(problem, first outputs)");
+    ctx.rule("history-twin: one long-lived problem driven through 12 (quick) / 40 (thorough) random operations (wide updates, repeated alpha, non-finite/extreme alpha that empty the cache, injected model failures, repeated queries, failed derivative calls, heap churn, complete short fits after which the problem inside the fit result carries on; histories of parallel problems run inside explicit pools of 1/2/3/5/16 threads and are repeated in a pool of another size with bit-identical outputs) and compared bitwise after every update with a freshly built problem at the reported parameters; repeated queries identical. Shapes: zoo models and table models with M<=8, P<=10, N<=64, S<=4 including dead parameters (identically zero derivative matrices) and zero derivative columns. clones: a problem over a Clone-able hand-written model and its clone are moved to different parameters and queried in interleaved order, each compared bitwise with a fresh problem. process-history: twelve f64 histories in a fresh child process and in a child process that handled an f32 problem first, all output bits equal. poison: the same sequences in child processes under allocator poison modes 0xAA / 0x55 / random, outputs bit-identical across modes and free of poison patterns. thorough adds valgrind memcheck over the release build and Miri over small shapes, with a data-dependent branch on every output element. non-trivial = the sequence produced at least one state with values; distinct = hash(problem, first outputs)");
     ctx.assume("bitwise equality is demanded because the property is about identity/determinism of one deterministic computation on the same stored data");
     let t = ctx.tier;
     let len = t.pick(12, 40);
     ctx.run_cases("history-twin", t.pick(8000, 120000), t.pick(15.0, 900.0), |r, c, o| twin_case(r, c, o, len));
     ctx.run_cases("clones", t.pick(1500, 40000), t.pick(15.0, 300.0), |r, c, o| if c % 3 == 0 { clone_case::<f32>(r, c, o) } else { clone_case::<f64>(r, c, o) });
+    if ctx.replay.is_none() {
+        order_probes(ctx, t.pick(4, 24));
+    }
     let exe = exe_for_profile("checked");
     run_in_children(ctx, &exe, "checked", "poison", t.pick(3200, 24000), 20.0, t.pick(60.0, 300.0));
     if t == Tier::Thorough && ctx.replay.is_none() {
